@@ -250,6 +250,10 @@ func runC13(t *mon.T, raw json.RawMessage) {
 		vs = append(vs, variant{"section-limit-max-uint64", append(cfg.Opts(), carv2.MaxAllowedSectionSize(math.MaxUint64)), true},
 			variant{"section-limit-2^63", append(cfg.Opts(), carv2.MaxAllowedSectionSize(1<<63)), true},
 			variant{"header-limit-max-uint64", append(cfg.Opts(), carv2.MaxAllowedHeaderSize(math.MaxUint64)), true})
+		if len(a.Payload.Sections) > 0 {
+			// a limit of zero is a limit: every section is over it (the block reader refuses, so must Inspect)
+			vs = append(vs, variant{"section-limit-0", append(cfg.Opts(), carv2.MaxAllowedSectionSize(0)), false})
+		}
 		if maxSec > 0 {
 			vs = append(vs, variant{"section-limit-at-max", append(cfg.Opts(), carv2.MaxAllowedSectionSize(maxSec)), true})
 			vs = append(vs, variant{"section-limit-below-max", append(cfg.Opts(), carv2.MaxAllowedSectionSize(maxSec-1)), false})
@@ -328,7 +332,7 @@ func runC13(t *mon.T, raw json.RawMessage) {
 			in := append([]byte{}, file...)
 			var class string
 			reject := true
-			switch r.Intn(10) {
+			switch r.Intn(11) {
 			case 0, 1: // flip inside data or digest
 				if len(a.Payload.Sections) == 0 {
 					continue
@@ -388,6 +392,21 @@ func runC13(t *mon.T, raw json.RawMessage) {
 				}
 				t.Cover("typed:" + class)
 				continue
+			case 10: // the declared payload ends inside the last section, the file goes on (index or padding)
+				if a.Version != 2 || len(a.Payload.Sections) == 0 || cfg.ZeroEOF {
+					continue
+				}
+				last := a.Payload.Sections[len(a.Payload.Sections)-1]
+				if last.End-last.Offset < 3 || uint64(len(in)) <= a.V2.DataOffset+a.V2.DataSize {
+					continue // nothing follows the payload: that is a truncated file, another class
+				}
+				room := int(last.End - last.Offset - 1)
+				if room > 5 {
+					room = 5
+				}
+				cutBy := uint64(1 + r.Intn(room))
+				binary.LittleEndian.PutUint64(in[35:], a.V2.DataSize-cutBy)
+				class = "declared-payload-ends-inside-a-section"
 			case 9: // the payload header of a CARv2 claims another version than 1
 				if a.Version != 2 {
 					continue
